@@ -95,6 +95,19 @@ def extents(draw, mins, max_extent=9):
     return out
 
 
+@st.composite
+def maybe_short(draw, shape, mins, lo=1, one_in=6):
+    """With probability 1/one_in give one distributed dimension fewer points than processes along its direction
+    (lo <= n < p): the ranks at the start of that direction then own an empty block.  The driver meets this when
+    mode_solve spreads few theta modes over many ranks."""
+    shape = list(shape)
+    cand = [i for i, m in enumerate(mins) if m - 1 >= lo]
+    if cand and draw(st.integers(0, one_in - 1)) == 0:
+        d = draw(st.sampled_from(cand))
+        shape[d] = draw(st.integers(lo, mins[d] - 1))
+    return shape
+
+
 # ----------------------------------------------------------------------------------------
 # spline spaces
 # ----------------------------------------------------------------------------------------
